@@ -6,7 +6,7 @@
    only (harness, subprocess isolation); the theorems below are about the model. *)
 From Coq Require Import List NArith ZArith Bool.
 From PB Require Import Desc.ValidateModel Desc.ValidateP Desc.ValidateSoundP Desc.ValidateTotalP Desc.ValidateBaseP Desc.ValidateRangesP
-                       Desc.FeaturesModel Desc.FeaturesP.
+                       Desc.FeaturesModel Desc.FeaturesP Desc.VisibleModel Desc.VisibleP.
 Import ListNotations.
 Open Scope Z_scope.
 
@@ -119,6 +119,36 @@ Example C35_validate_sound_nonvacuous :
   = Reject E_m_dupnum /\
   validate false false (mkFile 1 [] [mkEnum [69%N] [mkEValue [65%N] (Some 1)] false [] []] [] []) = Reject E_e_first.
 Proof. exact checks_fire. Qed.
+
+(* ---------- multi-file schemas: which files a reference may resolve into (Desc/VisibleModel.v
+   mirrors the importSet construction of desc.go; compared with the implementation on random
+   import graphs, op "visible") *)
+
+(* import_visibility_sound: whatever the import set contains is the file itself, a direct
+   import, or a file reachable from a direct import through PUBLIC import edges only.
+   _partial: the converse (completeness of the fuel-bounded traversal for acyclic graphs) is
+   checked on the examples below and by the correspondence run, not proved. *)
+Theorem C35_import_visibility_sound_partial : forall g a f, visible_b g a f = true -> visible g a f.
+Proof. exact visible_b_sound. Qed.
+Print Assumptions C35_import_visibility_sound_partial.
+
+(* when no direct import of [a] re-exports anything, nothing beyond the direct imports is visible
+   (the a -> b -> c shape with a non-public b -> c edge) *)
+Theorem C35_no_public_edges_only_direct : forall g a f,
+  (forall d p, In (d, p) (imports_of g a) -> forall j, ~ In (j, true) (imports_of g d)) ->
+  visible g a f -> f = a \/ exists p, In (f, p) (imports_of g a).
+Proof. exact no_public_edges_only_direct. Qed.
+Print Assumptions C35_no_public_edges_only_direct.
+
+Example C35_import_visibility_nonvacuous :
+  (visible_b [[]; [(0, false)]; [(1, false)]] 2 0 = false /\
+   visible_b [[]; [(0, true)]; [(1, false)]] 2 0 = true /\
+   visible_b [[]; [(0, false)]; [(1, true)]] 2 0 = false /\
+   visible_b [[]; [(0, true)]; [(1, true)]; [(2, false)]] 3 0 = true /\
+   visible_b [[]; [(0, true)]; [(1, false)]; [(2, false)]] 3 0 = false /\
+   visible_b [[]; []; [(0, false); (1, true)]; [(2, true)]; [(3, false)]] 4 1 = true /\
+   visible_b [[]; []; [(0, false); (1, true)]; [(2, true)]; [(3, false)]] 4 0 = false)%nat.
+Proof. exact visible_examples. Qed.
 
 (* ---------- recorded findings: where "rejects every definite error / never crashes" fails *)
 
